@@ -235,7 +235,7 @@ func (e *env) checkEventStream(events []obs, opt streamOpts) {
 			dsim.Failf("parse-errors-only-for-rejected", "%s: %d parse-error events although the peer sent only valid frames", name, s.perrs)
 			return
 		}
-		fully := opt.lossless && opt.consumerAlive && (opt.nodeClosedAt == 0) && !l.peerReset && l.txErr == nil
+		fully := opt.lossless && opt.consumerAlive && (opt.nodeClosedAt == 0) && !l.peerReset && l.txErr == nil && s.closes == 0
 		if fully && len(s.frames) < complete {
 			dsim.Failf("frames-lossless", "%s: the peer %s sent %d valid frames completely, only %d frame events arrived by quiescence (consumer alive, node open)",
 				name, l.name, complete, len(s.frames))
